@@ -51,6 +51,7 @@ type Contract struct {
 	Calls      []string // for documentation
 	Observes   []string // expressions whose values counterexamples report
 	Locked     []string // lock field names that every caller must hold
+	Prune      bool     // drop branches the precondition rules out while executing (narrow-precondition variants)
 	DeadReturnCount int // number of return sites that are legitimately unreachable under the precondition (defensive dead code)
 }
 
@@ -64,7 +65,7 @@ type RegionSpec struct {
 
 var clauseKeywords = map[string]bool{"func": true, "requires": true, "ensures": true, "modifies": true, "loop": true,
 	"pure": true, "trusted": true, "inline": true, "nosafety": true, "props": true, "assume": true, "region": true,
-	"from": true, "to": true, "ghost": true, "lemma": true, "vars": true, "safetyonly": true, "field": true, "monitor": true, "end": true, "observe": true, "deadreturn": true, "locked": true}
+	"from": true, "to": true, "ghost": true, "lemma": true, "vars": true, "safetyonly": true, "field": true, "monitor": true, "end": true, "observe": true, "deadreturn": true, "locked": true, "prune": true}
 
 type rawLine struct {
 	text string
@@ -215,6 +216,8 @@ func ParseContractFile(path string) ([]*Contract, []*Decl, error) {
 			cur.Props = append(cur.Props, fields[1:]...)
 		case "assume":
 			cur.Assumes = append(cur.Assumes, rest)
+		case "prune":
+			cur.Prune = true
 		case "locked":
 			cur.Locked = append(cur.Locked, fields[1:]...)
 		case "deadreturn":
